@@ -54,7 +54,7 @@ class C03(HistProp):
                 setcolkind=1, setlength=1, concat=1)
     gen_kw = {'max_pool': 10, 'max_rows': 30, 'bad_rate': 0.06}
     big_first = True
-    n_quick = 120
+    n_quick = 300
     steps_quick = (14, 26)
     rule = ('relatives histories: one source of 9-30 rows (well above 8, where set iteration order of row ids stops '
             'coinciding with numeric order) with Mixed/Float/Int columns, chains of selections, slices, sorts, shuffles '
